@@ -60,3 +60,11 @@ Example rook_consts_castle :
   nthN (nth 0 C_ROOK_START []) 6 0 = 7 /\ nthN (nth 0 C_ROOK_END []) 6 0 = 5 /\
   nthN (nth 0 C_ROOK_START []) 2 0 = 0 /\ nthN (nth 0 C_ROOK_END []) 2 0 = 3.
 Proof. vm_compute. auto. Qed.
+
+(** ** The refinement statement (NOT proved here; another file's task): on the board built for
+    any valid position, the library's move application succeeds on every legal move and yields
+    a board whose abstraction is the specification's successor [apply]. *)
+Definition C02_refinement_full : Prop :=
+  forall p m, pos_valid p = true -> In m (legal_moves p) ->
+  exists b', make_move_new (from_scratch p) (src m) (dst m) (promo m) = Some b'
+             /\ abs_board b' = apply p m.
